@@ -18,7 +18,8 @@ RULE = ("Hypothesis: original (well-formed, 2 channels, any construction route /
         "still agree, and no message object is shared between the two sides. Non-trivial: the op lists contain an operation "
         "that mutates message objects in place (transpose, set_channel, scale, iterator edits). Distinct by case digest.")
 ASSUMPTIONS = ["an operation that raises on one side ends that side's op list; the other side is still compared"]
-TIERS = {"quick": dict(shards=8, examples=500), "thorough": dict(shards=16, examples=6000)}
+TIERS = {"quick": dict(shards=8, examples=500, alt_ppqn=[480], alt_shards=2),
+         "thorough": dict(shards=16, examples=6000, alt_ppqn=[480, 7, 1000], alt_shards=4)}
 
 ROUTES = ["seq_copy", "split", "split_bars", "bar_copy", "track_copy", "composition_copy"]
 
@@ -30,7 +31,7 @@ def _case(draw):
     srcs = []
     for i in range(n_src):
         sig = draw(st.sampled_from([[4, 4], [3, 4], [6, 8], [2, 4]]))
-        notes = draw(gens.wellformed_notes(channels=(0, 1), pitches=(60, 61, 64), max_notes=6, max_len=60, max_gap=40))
+        notes = draw(gens.wellformed_notes(channels=(0, 1), pitches=draw(st.sampled_from([(60, 61, 64), (60, 61, 64), (21, 108), (22, 107, 60)])), max_notes=6, max_len=60, max_gap=40))
         meta = []
         if route != "bar_copy" and i == 0 and draw(st.booleans()):
             meta.append(["ts", 0, sig[0], sig[1]])
